@@ -144,7 +144,7 @@ unsafe fn foreign_slot(p: usize) -> Option<usize> {
 
 unsafe impl GlobalAlloc for Checking {
   unsafe fn alloc(&self, l: Layout) -> *mut u8 {
-    if !SCOPE {
+    if !SCOPE && !WINDOW {
       return System.alloc(l);
     }
     if WINDOW {
